@@ -1,8 +1,172 @@
 import CM.Lib.Wire
-/-! Driver handler for C12 (stub: not built yet). -/
-namespace CM.Drv.C12
-open CM.Wire
+import CM.Model.Cache
+/-!
+Driver handler for C12.
 
-def handle (_args _impl : List String) : String := bad
+Request:  `trace <capacity> <event>… => <state>…`   (one implementation state per event)
+  certificate  `hash/names/tags/managed/issuer/ari`   lists comma-separated, `-` = empty
+  events       `add:<cert>:<victim|->`  `rm:<hash,…>`  `rmm:<name@issuer,…>`
+               `rep:<old cert>:<new cert>:<victim|->`  `rmc:<cert>`  `ari:<hash>:<stamp>`  `hs:<cert>`
+  state        `<key/cert;…>#<name=hash,hash;…>`  both sides sorted by key, `-` = empty
+Answer: the model's states after each event (same rendering) | `Inv` evaluated on the
+IMPLEMENTATION's states (`bad:<part of Inv>` for the first state violating it) | branches taken.
+-/
+namespace CM.Drv.C12
+open CM.Wire CM.Cache
+
+def dash (s : String) : String := if s = "-" then "" else s
+def undash (s : String) : String := if s = "" then "-" else s
+def optList (s : String) (sep : String) : List String := if s = "-" then [] else s.splitOn sep
+def showList (l : List String) (sep : String) : String := if l = [] then "-" else sep.intercalate l
+
+def parseCertFields : List String → Option Cert
+  | [h, ns, ts, m, iss, ari] =>
+    ari.toNat?.map fun a =>
+      { hash := dash h, names := (optList ns ",").map String.toList, tags := optList ts ",",
+        managed := m = "1", issuer := dash iss, ari := a }
+  | _ => none
+
+def parseCert (t : String) : Option Cert := parseCertFields (t.splitOn "/")
+
+def showCert (c : Cert) : String :=
+  "/".intercalate [undash c.hash, showList (c.names.map String.ofList) ",", showList c.tags ",",
+    (if c.managed then "1" else "0"), undash c.issuer, toString c.ari]
+
+def parseVictim (s : String) : Option Hash := if s = "-" then none else some s
+
+def parseEv (t : String) : Option Ev :=
+  match t.splitOn ":" with
+  | ["add", c, v] => (parseCert c).map fun c => .add c (parseVictim v)
+  | ["rm", hs] => some (.remove ((optList hs ",").map dash))
+  | ["rmm", subs] =>
+    some (.removeManaged ((optList subs ",").map fun p =>
+      match p.splitOn "@" with
+      | [n, i] => (n.toList, dash i)
+      | _ => (p.toList, "")))
+  | ["rep", o, n, v] =>
+    match parseCert o, parseCert n with
+    | some o, some n => some (.replace o n (parseVictim v))
+    | _, _ => none
+  | ["rmc", c] => (parseCert c).map .removeCopy
+  | ["ari", h, k] => k.toNat?.map fun k => .ariWB h k
+  | ["hs", c] => (parseCert c).map .hsWB
+  | _ => none
+
+def sortStrings (l : List String) : List String := (l.toArray.qsort (fun a b => a < b)).toList
+
+def showState (s : State) : String :=
+  let cs := sortStrings (s.cache.map fun p => undash p.1 ++ "/" ++ showCert p.2)
+  let is := sortStrings (s.index.map fun p => String.ofList p.1 ++ "=" ++ showList p.2 ",")
+  showList cs ";" ++ "#" ++ showList is ";"
+
+def parseState (cap : Nat) (t : String) : Option State :=
+  match t.splitOn "#" with
+  | [cs, is] =>
+    let centries := (optList cs ";").map fun e =>
+      match e.splitOn "/" with
+      | k :: rest => (parseCertFields rest).map fun c => (dash k, c)
+      | [] => none
+    let ientries := (optList is ";").map fun e =>
+      match e.splitOn "=" with
+      | [n, hs] => some (n.toList, (optList hs ",").map dash)
+      | _ => none
+    if centries.all Option.isSome && ientries.all Option.isSome then
+      some { cache := centries.filterMap id, index := ientries.filterMap id, cap := cap }
+    else none
+  | _ => none
+
+/-- which branch of the code an event takes in state `s` -/
+def branch (s : State) : Ev → String
+  | .add c _ =>
+    match get? c.hash s.cache with
+    | some _ => if c.tags = [] then "d" else "M"
+    | none => if atCapacity s then "E" else "A"
+  | .remove hs => if hs.any (fun h => (get? h s.cache).isSome) then "R" else "r"
+  | .removeManaged subs => if (subs.flatMap (managedQueue s)) = [] then "g" else "G"
+  | .replace o n _ =>
+    (if (get? o.hash s.cache).isSome then "P" else "p") ++
+    (match get? n.hash (removeCert o s).cache with
+     | some _ => "M"
+     | none => if atCapacity (removeCert o s) then "E" else "")
+  | .removeCopy c => if (get? c.hash s.cache).isSome then "C" else "c"
+  | .ariWB h _ => if (get? h s.cache).isSome then "W" else "w"
+  | .hsWB c => if (get? c.hash s.cache).isSome then "H" else "h"
+
+/-- run the model, collecting the rendering of every intermediate state and the branches -/
+def replay : State → List Ev → List String × List String
+  | _, [] => ([], [])
+  | s, e :: es =>
+    match step s e with
+    | none => (["!disabled"], [])
+    | some s' =>
+      let (o, b) := replay s' es
+      (showState s' :: o, branch s e :: b)
+
+/-- what the statement promises about single operations, judged on the implementation's
+states before and after the event (independent of the model's `step`) -/
+def postCheck (prev cur : State) : Ev → Option String
+  | .add c _ =>
+    match get? c.hash cur.cache with
+    | none => some "added-cert-not-cached"
+    | some e' =>
+      match get? c.hash prev.cache with
+      | none => none
+      | some e =>
+        if (e.tags ++ c.tags).all (fun t => decide (t ∈ e'.tags)) then none else some "tags-not-merged"
+  | .remove hs => if hs.any (fun h => (get? h cur.cache).isSome) then some "removed-cert-still-cached" else none
+  | .replace o n _ =>
+    if (get? n.hash cur.cache).isNone then some "replacement-not-cached"
+    else if o.hash ≠ n.hash && (get? o.hash cur.cache).isSome then some "replaced-cert-still-cached"
+    else none
+  | .removeCopy c => if (get? c.hash cur.cache).isSome then some "removed-cert-still-cached" else none
+  | .removeManaged subs =>
+    if cur.cache.any (fun p => p.2.managed && subs.any (fun sb => decide (sb.1 ∈ p.2.names) && (sb.2 = "" || p.2.issuer = sb.2)))
+    then some "managed-cert-still-cached" else none
+  | _ => none
+
+def postChecks : State → List State → List Ev → Option String
+  | prev, cur :: rest, e :: es =>
+    match postCheck prev cur e with
+    | some r => some r
+    | none => postChecks cur rest es
+  | _, _, _ => none
+
+def handle (args impl : List String) : String :=
+  match args with
+  | "trace" :: cap :: evs =>
+    match cap.toNat?, evs.map parseEv with
+    | some cap, pevs =>
+      if !(pevs.all Option.isSome) then bad else
+      let es := pevs.filterMap id
+      let (outs, brs) := replay (init cap) es
+      let model := " ".intercalate outs
+      let spec :=
+        if impl.length ≠ es.length then "bad:state-count"
+        else
+          let verdicts := impl.map fun t =>
+            match parseState cap t with
+            | none => some "unparsable-state"
+            | some s => invCheck s
+          match verdicts.find? Option.isSome with
+          | some (some r) => "bad:" ++ r
+          | _ =>
+            match postChecks (init cap) (impl.filterMap (parseState cap)) es with
+            | some r => "bad:" ++ r
+            | none => "ok"
+      let tag := String.join (sortStrings (dedup brs))
+      reply model spec tag
+    | _, _ => bad
+  | ["quiesce", cap, st] =>
+    -- a state reached by concurrent operations under the real scheduler: only judged
+    match cap.toNat? with
+    | none => bad
+    | some cap =>
+      match parseState cap st with
+      | none => reply "-" "bad:unparsable-state" "Q"
+      | some s =>
+        match invCheck s with
+        | some r => reply "-" ("bad:" ++ r) "Q"
+        | none => reply "-" "ok" "Q"
+  | _ => bad
 
 end CM.Drv.C12
